@@ -41,7 +41,7 @@ CLAIMED = {
                 'formatting x models x stdin/1-3 files) and stream faults; formatting pairs must decode to equal graphs; the '
                 'tool is re-applied to its own output (sequentially and as two concurrently scheduled processes joined by a '
                 'bounded simulated pipe); a sample runs as real child processes (one block-buffered, one unbuffered) under two '
-                'hash seeds; the library reference runs at the library's default log level while main() sets its own. Every run is also under bounded liveness: a suspected hang (wall clock) is re-executed under a budget of penman line events and only exceeding that logical budget is reported.',
+                'hash seeds; the library reference runs at the default log level of the library while main() sets its own. Every run is also under bounded liveness: a suspected hang (wall clock) is re-executed under a budget of penman line events and only exceeding that logical budget is reported.',
         'note': 'Trusts the reference pipeline order taken from docs/command.rst and the statement; blank-line counts across file '
                 'boundaries are only constrained by the normal-form clause (known finding F16); --triples is excluded from feed-back.',
         'technique': SIM + 'in-process CLI process simulation over SimFS, bounded-pipe two-process pipeline under a seeded baton '
